@@ -190,7 +190,9 @@ FlowSeq == IF Tier = "thorough" THEN <<"ss_xz", "pure_xy", "gen3d", "ss_yx", "ax
 
 \* regime programme of a history: the first 3/5 of the updates shrink grains through the threshold in a
 \* dislocation-type regime, the remaining ones run in the named regime (4 = stay in matrix_dislocation)
-RegSeq == <<<<4, 4>>, <<4, 1>>, <<4, 7>>, <<6, 0>>>>
+\* (code 40: stay in matrix_dislocation but with boundary mobility M* = 0 - volume rates are zero there too, while the
+\* unfloored grains keep rotating)
+RegSeq == <<<<4, 4>>, <<4, 1>>, <<4, 7>>, <<6, 0>>, <<4, 40>>>>
 Selected(a, b, m, d, t, f) == Tier = "thorough" \/ (a + b + m + d + t + f) % 6 = 0
 
 ScenInit == /\ l = 0 /\ last = <<>> /\ nbad = 0 /\ nhook = 0
@@ -200,7 +202,7 @@ ScenInit == /\ l = 0 /\ last = <<>> /\ nbad = 0 /\ nhook = 0
                  /\ cur = [phase |-> FabSeq[a].phase, fabric |-> FabSeq[a].fabric, chi |-> ChiSeq[b],
                            M |-> MobSeq[m], n |-> NSeq[d], tex |-> TexSeq[t], fl |-> FlowSeq[f],
                            nupd |-> 10 + 5 * ((a + b + m) % 3),
-                           rp |-> RegSeq[1 + ((a + 2 * b + m + d + t) % 4)],
+                           rp |-> RegSeq[1 + ((a + 2 * b + m + d + t) % 5)],
                            id |-> <<a, b, m, d, t, f>>]
 ScenNext == UNCHANGED tvars
 EmitScen == PrintT(<<"SCEN", ToJson(cur)>>)
